@@ -11,9 +11,10 @@ Record ledger := {
   g_codes : list (nat * nat);    (* code -> request, from callback redirects *)
   g_used : list nat;             (* codes that already yielded tokens *)
   g_rts : list rtok;             (* refresh tokens as issued (client, sub, aud, auth time, scope of the response) *)
-  g_rot : list nat               (* refresh tokens already exchanged *)
+  g_rot : list nat;              (* refresh tokens already exchanged *)
+  g_norefresh : list string      (* clients whose refresh grant registration was withdrawn (test side) *)
 }.
-Definition ledger0 : ledger := {| g_reqs := []; g_codes := []; g_used := []; g_rts := []; g_rot := [] |}.
+Definition ledger0 : ledger := {| g_reqs := []; g_codes := []; g_used := []; g_rts := []; g_rot := []; g_norefresh := [] |}.
 
 Definition g_req (g : ledger) (n : nat) : option areq := find (fun q => Nat.eqb (q_id q) n) (g_reqs g).
 Definition g_rt (g : ledger) (n : nat) : option rtok := find (fun t => Nat.eqb (r_id t) n) (g_rts g).
@@ -36,20 +37,23 @@ Definition ledger_step (g : ledger) (o : op) (x : out) : ledger :=
   | Authorize cl uri sc nonce chal, OAuthz (Some n) =>
       {| g_reqs := {| q_id := n; q_client := cl; q_uri := uri; q_scopes := sc; q_nonce := nonce; q_chal := chal;
                       q_done := false; q_sub := ""; q_auth := 0 |} :: g_reqs g;
-         g_codes := g_codes g; g_used := g_used g; g_rts := g_rts g; g_rot := g_rot g |}
+         g_codes := g_codes g; g_used := g_used g; g_rts := g_rts g; g_rot := g_rot g; g_norefresh := g_norefresh g |}
   | Login n sub stamp, OLogin true =>
       {| g_reqs := map (mark_done n sub stamp) (g_reqs g);
-         g_codes := g_codes g; g_used := g_used g; g_rts := g_rts g; g_rot := g_rot g |}
+         g_codes := g_codes g; g_used := g_used g; g_rts := g_rts g; g_rot := g_rot g; g_norefresh := g_norefresh g |}
   | Callback n, OCode c =>
-      {| g_reqs := g_reqs g; g_codes := (c, n) :: g_codes g; g_used := g_used g; g_rts := g_rts g; g_rot := g_rot g |}
-  | TokenCode _ code _ _, OTokens t =>
+      {| g_reqs := g_reqs g; g_codes := (c, n) :: g_codes g; g_used := g_used g; g_rts := g_rts g; g_rot := g_rot g; g_norefresh := g_norefresh g |}
+  | TokenCode _ _ _ code _ _, OTokens t =>
       {| g_reqs := g_reqs g; g_codes := g_codes g;
          g_used := match code with Some c => c :: g_used g | None => g_used g end;
-         g_rts := add_rt g t; g_rot := g_rot g |}
-  | TokenRefresh _ rt _, OTokens t =>
+         g_rts := add_rt g t; g_rot := g_rot g; g_norefresh := g_norefresh g |}
+  | TokenRefresh _ _ rt _, OTokens t =>
       {| g_reqs := g_reqs g; g_codes := g_codes g; g_used := g_used g;
          g_rts := add_rt g t;
-         g_rot := match rt with Some n => n :: g_rot g | None => g_rot g end |}
+         g_rot := match rt with Some n => n :: g_rot g | None => g_rot g end; g_norefresh := g_norefresh g |}
+  | DropRefresh cl, ODone =>
+      {| g_reqs := g_reqs g; g_codes := g_codes g; g_used := g_used g; g_rts := g_rts g; g_rot := g_rot g;
+         g_norefresh := cl :: g_norefresh g |}
   | _, _ => g
   end.
 
@@ -117,7 +121,7 @@ Definition c04_ok (g : ledger) (o : op) (x : out) : bool :=
       | Some q => q_done q && match lookup c (g_codes g) with None => true | Some _ => false end
       | None => false
       end
-  | TokenCode cr (Some c) uri ver, OTokens t =>
+  | TokenCode _ _ cr (Some c) uri ver, OTokens t =>
       match lookup c (g_codes g) with
       | None => false
       | Some n =>
@@ -135,7 +139,7 @@ Definition c04_ok (g : ledger) (o : op) (x : out) : bool :=
               && carries q t
           end
       end
-  | TokenCode _ None _ _, OTokens _ => false
+  | TokenCode _ _ _ None _ _, OTokens _ => false
   | _, _ => true
   end.
 
@@ -143,14 +147,14 @@ Definition c04_ok (g : ledger) (o : op) (x : out) : bool :=
 Definition c07_ok (g : ledger) (o : op) (x : out) : bool :=
   match o, x with
   | _, OPanic | _, OOther => false
-  | TokenRefresh cr (Some n) scopes, OTokens t =>
+  | TokenRefresh _ cr (Some n) scopes, OTokens t =>
       match g_rt g n with
       | None => false
       | Some r =>
           negb (nat_in n (g_rot g))
           && f_refresh cf
           && cred_proves cf cr (r_client r)
-          && client_refresh cf (r_client r)
+          && client_refresh cf (r_client r) && negb (string_in (r_client r) (g_norefresh g))
           && subset scopes (r_scopes r)
           && subset (t_scope t) (r_scopes r)
           && match t_jwt t with Some c => String.eqb c (r_client r) | None => true end
@@ -163,7 +167,7 @@ Definition c07_ok (g : ledger) (o : op) (x : out) : bool :=
           && strs_eqb (t_aud t) (r_aud r) && String.eqb (t_azp t) (r_client r)
           && Nat.eqb (t_auth t) (r_auth r)
       end
-  | TokenRefresh _ None _, OTokens _ => false
+  | TokenRefresh _ _ None _, OTokens _ => false
   | _, _ => true
   end.
 
